@@ -43,6 +43,15 @@ type c18Rec struct {
 	jmu    sync.Mutex
 	jitter *rand.Rand
 
+	// adversarial scheduling of "take a batch under the lock, close it outside": the goroutine that took
+	// the batch is held at its first CloseConn until some concurrent ReleaseConn calls have gone through
+	gateGid      uint64
+	gateTarget   int
+	gateDeadline time.Time
+	relCount     int // connections appended to the idle list so far
+	forceGate    int // directed replay: the next batch closer waits for this many releases
+	batches      int // batches taken out of the pool so far (CloseIdleConnections / cleaner)
+
 	// dialer ground truth
 	dmu      sync.Mutex
 	nconn    int
@@ -53,6 +62,8 @@ type c18Rec struct {
 	overMsg  string
 	dialFail int // percent
 	dialDur  int // max microseconds
+	closeDur int // max microseconds a net.Conn.Close takes (slow close: TLS close_notify, ...)
+	conns    []*c18Conn
 	srvMode  func(c *c18Conn, req []byte)
 }
 
@@ -112,6 +123,9 @@ func (r *c18Rec) hook(ev string, o1, o2 any, a, b int) {
 		r.sleepJitter(15) // a lock is held here
 	}
 	gid := c18Gid()
+	if ev == "hc.close.begin" {
+		r.waitGate(gid)
+	}
 	r.mu.Lock()
 	defer r.mu.Unlock()
 	switch ev {
@@ -193,6 +207,9 @@ func (r *c18Rec) hook(ev string, o1, o2 any, a, b int) {
 		if !ok || c == 0 {
 			return
 		}
+		if !o2.(bool) {
+			r.relCount++
+		}
 		r.emit(vfRec{"ev": ev, "c": c, "delivered": c18B2i(o2.(bool)), "a": a, "b": b})
 	case "hc.wait.deliver":
 		x, ok := r.wid[o1.(*wantConn)]
@@ -214,12 +231,49 @@ func (r *c18Rec) hook(ev string, o1, o2 any, a, b int) {
 		if o1.(*HostClient) != r.hc {
 			return
 		}
+		r.armGate(gid, a)
 		r.emit(vfRec{"ev": ev, "a": a})
 	case "hc.clean":
 		if o1.(*HostClient) != r.hc || a == 0 {
 			return
 		}
+		r.armGate(gid, a)
 		r.emit(vfRec{"ev": ev, "a": a, "b": b})
+	}
+}
+
+// armGate is called (under r.mu) when goroutine gid has taken n connections out of the pool.
+func (r *c18Rec) armGate(gid uint64, n int) {
+	r.batches++
+	if r.forceGate > 0 && n >= 2 {
+		r.gateGid, r.gateTarget, r.gateDeadline = gid, r.relCount+r.forceGate, time.Now().Add(30*time.Millisecond)
+		r.forceGate = 0
+		return
+	}
+	r.jmu.Lock()
+	on := n >= 2 && r.jitter.Intn(100) < 60
+	want := 1 + r.jitter.Intn(3)
+	r.jmu.Unlock()
+	if on {
+		r.gateGid, r.gateTarget, r.gateDeadline = gid, r.relCount+want, time.Now().Add(3*time.Millisecond)
+	}
+}
+
+// waitGate holds the batch closer (no lock is held at hc.close.begin) until enough releases happened.
+func (r *c18Rec) waitGate(gid uint64) {
+	for {
+		r.mu.Lock()
+		if r.gateGid != gid {
+			r.mu.Unlock()
+			return
+		}
+		if r.relCount >= r.gateTarget || time.Now().After(r.gateDeadline) {
+			r.gateGid = 0
+			r.mu.Unlock()
+			return
+		}
+		r.mu.Unlock()
+		time.Sleep(40 * time.Microsecond)
 	}
 }
 
@@ -254,6 +308,7 @@ func (r *c18Rec) dial(addr string) (net.Conn, error) {
 	c.tag = r
 	c.onReq = r.srvMode
 	c.onClose = r.netClose
+	r.conns = append(r.conns, c)
 	return c, nil
 }
 
@@ -261,6 +316,18 @@ func (r *c18Rec) netClose(c *c18Conn) {
 	r.mu.Lock()
 	r.emit(vfRec{"ev": "hc.netclose", "c": c.id})
 	r.mu.Unlock()
+	// a Close may take a while; the connection counts as open until it has returned
+	if r.closeDur > 0 {
+		r.jmu.Lock()
+		d := 0
+		if r.jitter.Intn(100) < 60 {
+			d = r.jitter.Intn(r.closeDur)
+		}
+		r.jmu.Unlock()
+		if d > 0 {
+			time.Sleep(time.Duration(d) * time.Microsecond)
+		}
+	}
 	r.dmu.Lock()
 	r.live--
 	r.dmu.Unlock()
@@ -280,6 +347,9 @@ type c18Cfg struct {
 	idleDur                time.Duration
 	holdMax                int
 	doPct                  int
+	closeDur               int // max microseconds for net.Conn.Close
+	janitor                int // CloseIdleConnections calls issued by an extra goroutine while the workers run
+	stage                  bool // begin with the directed trim-vs-release replay (needs MaxConns >= 4)
 }
 
 type c18Exec struct {
@@ -292,7 +362,7 @@ var c18RespClose = []byte("HTTP/1.1 200 OK\r\nConnection: close\r\nContent-Lengt
 
 func c18RunOne(rng *rand.Rand, cfg c18Cfg) (ex c18Exec, key, detail string) {
 	rec := &c18Rec{gidReq: map[uint64]int{}, gidCtx: map[uint64]c18Who{}, wid: map[*wantConn]int{},
-		jitter: rand.New(rand.NewSource(rng.Int63())), maxConns: cfg.maxConns, dialFail: cfg.dialFail, dialDur: cfg.dialDur}
+		jitter: rand.New(rand.NewSource(rng.Int63())), maxConns: cfg.maxConns, dialFail: cfg.dialFail, dialDur: cfg.dialDur, closeDur: cfg.closeDur}
 	var srvMu sync.Mutex
 	srvRng := rand.New(rand.NewSource(rng.Int63()))
 	rec.srvMode = func(c *c18Conn, req []byte) {
@@ -340,6 +410,110 @@ func c18RunOne(rng *rand.Rand, cfg c18Cfg) (ex c18Exec, key, detail string) {
 		return v.(*atomic.Int32)
 	}
 	const slack = 5 * time.Second
+	// owners that give their connection back just when the pool is being trimmed
+	var sigMu sync.Mutex
+	trimSig := make(chan struct{})
+	curSig := func() chan struct{} { sigMu.Lock(); defer sigMu.Unlock(); return trimSig }
+	fireSig := func() {
+		sigMu.Lock()
+		close(trimSig)
+		trimSig = make(chan struct{})
+		sigMu.Unlock()
+	}
+	// checkLent inspects a connection AcquireConn just handed out; false = do not touch it any further
+	checkLent := func(cc *clientConn) (*c18Conn, *atomic.Int32, bool) {
+		if cc == nil {
+			viol("acquire-nil-conn", "AcquireConn returned nil connection and nil error")
+			return nil, nil, false
+		}
+		if cc.c == nil {
+			viol("recycled-conn-lent", "AcquireConn handed out a clientConn that had already been closed and recycled (its net.Conn is nil)")
+			return nil, nil, false
+		}
+		fc := cc.c.(*c18Conn)
+		fl := flagOf(fc)
+		if !fl.CompareAndSwap(0, 1) {
+			viol("double-lend", fmt.Sprintf("connection %d handed out while another caller still owns it", fc.id))
+		}
+		if _, _, closes := fc.stats(); closes > 0 {
+			viol("closed-conn-lent", fmt.Sprintf("connection %d handed out after the client closed it", fc.id))
+			return fc, fl, false
+		}
+		return fc, fl, true
+	}
+	// Directed replay (hook gate): the pool is trimmed (CloseIdleConnections has taken >= 2 idle connections
+	// and is held before its first CloseConn) while two owners give their connections back.
+	if cfg.stage && cfg.maxConns >= 4 {
+		var held []*clientConn
+		var flags []*atomic.Int32
+		for i := 0; i < 4; i++ {
+			cc, err := hc.AcquireConn(0, false)
+			if err != nil {
+				break
+			}
+			_, fl, ok := checkLent(cc)
+			if !ok {
+				rec.mu.Lock()
+				ex := c18Exec{evs: rec.evs, nreq: rec.nreq, nc: rec.nconn}
+				rec.mu.Unlock()
+				return ex, key, detail
+			}
+			held = append(held, cc)
+			flags = append(flags, fl)
+		}
+		for _, fl := range flags {
+			fl.Store(0)
+		}
+		if len(held) == 4 {
+			hc.ReleaseConn(held[0])
+			hc.ReleaseConn(held[1])
+			rec.mu.Lock()
+			rec.forceGate = 2
+			b0 := rec.batches
+			rec.mu.Unlock()
+			g := make(chan struct{})
+			go func() { hc.CloseIdleConnections(); close(g) }()
+			for dl := time.Now().Add(2 * time.Second); time.Now().Before(dl); time.Sleep(20 * time.Microsecond) {
+				rec.mu.Lock()
+				taken := rec.batches > b0
+				rec.mu.Unlock()
+				if taken {
+					break
+				}
+			}
+			hc.ReleaseConn(held[2])
+			hc.ReleaseConn(held[3])
+			<-g
+			rec.mu.Lock()
+			rec.forceGate = 0
+			rec.mu.Unlock()
+			for i := 0; i < 2; i++ { // the two connections given back must be the ones the pool lends now
+				cc, err := hc.AcquireConn(0, false)
+				if err != nil {
+					continue
+				}
+				_, fl, ok := checkLent(cc)
+				if !ok {
+					vmu.Lock()
+					k, d := key, detail
+					vmu.Unlock()
+					rec.mu.Lock()
+					ex := c18Exec{evs: rec.evs, nreq: rec.nreq, nc: rec.nconn}
+					rec.mu.Unlock()
+					return ex, k, d
+				}
+				fl.Store(0)
+				held = append(held, cc)
+			}
+			for _, cc := range held[4:] {
+				hc.ReleaseConn(cc)
+			}
+		} else {
+			for _, cc := range held {
+				hc.CloseConn(cc)
+			}
+		}
+	}
 	var wg sync.WaitGroup
 	for w := 0; w < cfg.workers; w++ {
 		wg.Add(1)
@@ -393,19 +567,19 @@ func c18RunOne(rng *rand.Rand, cfg c18Cfg) (ex c18Exec, key, detail string) {
 						}
 						continue
 					}
-					if cc == nil || cc.c == nil {
-						viol("acquire-nil-conn", "AcquireConn returned nil connection and nil error")
+					_, fl, lentOK := checkLent(cc)
+					if !lentOK {
 						continue
 					}
-					fc := cc.c.(*c18Conn)
-					fl := flagOf(fc)
-					if !fl.CompareAndSwap(0, 1) {
-						viol("double-lend", fmt.Sprintf("connection %d handed out while another caller still owns it", fc.id))
-					}
-					if _, _, closes := fc.stats(); closes > 0 {
-						viol("closed-conn-lent", fmt.Sprintf("connection %d handed out after the client closed it", fc.id))
-					}
-					if cfg.holdMax > 0 {
+					if cfg.janitor > 0 && wrng.Intn(100) < 50 {
+						select { // hold the connection until somebody trims the pool
+						case <-curSig():
+							if wrng.Intn(2) == 0 {
+								time.Sleep(time.Duration(wrng.Intn(150)) * time.Microsecond)
+							}
+						case <-time.After(3 * time.Millisecond):
+						}
+					} else if cfg.holdMax > 0 {
 						time.Sleep(time.Duration(wrng.Intn(cfg.holdMax)) * time.Microsecond)
 					}
 					fl.Store(0)
@@ -418,6 +592,19 @@ func c18RunOne(rng *rand.Rand, cfg c18Cfg) (ex c18Exec, key, detail string) {
 				if wrng.Intn(3) == 0 {
 					time.Sleep(time.Duration(wrng.Intn(600)) * time.Microsecond)
 				}
+			}
+		}()
+	}
+	if cfg.janitor > 0 {
+		// somebody else trims the pool while requests are in flight
+		wg.Add(1)
+		jrng := rand.New(rand.NewSource(rng.Int63()))
+		go func() {
+			defer wg.Done()
+			for k := 0; k < cfg.janitor; k++ {
+				time.Sleep(time.Duration(jrng.Intn(700)) * time.Microsecond)
+				fireSig()
+				hc.CloseIdleConnections()
 			}
 		}()
 	}
@@ -463,6 +650,18 @@ func c18RunOne(rng *rand.Rand, cfg c18Cfg) (ex c18Exec, key, detail string) {
 			fmt.Sprintf("no request pending but ConnsCount=%d IdleConnsCount=%d open=%d dialling=%d", cnt, idle, live, dialing))
 		return finish(), key, detail
 	}
+	// a pooled connection must be open
+	hc.connsLock.Lock()
+	for _, pc := range hc.conns {
+		if pc == nil || pc.c == nil {
+			viol("closed-conn-pooled", "the idle pool holds a clientConn that was closed and recycled (nil net.Conn)")
+		} else if fc, ok := pc.c.(*c18Conn); ok {
+			if _, _, closes := fc.stats(); closes > 0 {
+				viol("closed-conn-pooled", fmt.Sprintf("the idle pool holds connection %d, which the client has already closed", fc.id))
+			}
+		}
+	}
+	hc.connsLock.Unlock()
 	// the cleaner may have taken connections between the reads; only log a consistent snapshot
 	// (lock order as in the hooks: connsLock, then the recorder)
 	hc.connsLock.Lock()
@@ -489,7 +688,14 @@ func c18RunOne(rng *rand.Rand, cfg c18Cfg) (ex c18Exec, key, detail string) {
 	if rec.overKey != "" {
 		viol(rec.overKey, rec.overMsg)
 	}
+	all := append([]*c18Conn(nil), rec.conns...)
 	rec.dmu.Unlock()
+	// everything is closed and nothing is pending: every dialled connection was closed exactly once
+	for _, fc := range all {
+		if _, _, closes := fc.stats(); closes != 1 {
+			viol("conn-close-count", fmt.Sprintf("connection %d was closed %d times by the client (want exactly once; 0 = left open but not counted)", fc.id, closes))
+		}
+	}
 	return finish(), key, detail
 }
 
@@ -520,7 +726,11 @@ func TestVerifC18Pool(t *testing.T) {
 			cfg := c18Cfg{maxConns: maxc, lifo: lifo == 1, workers: 2 + rng.Intn(4), ops: 2 + rng.Intn(4),
 				dialFail: []int{0, 0, 20, 45}[rng.Intn(4)], dialDur: []int{0, 200, 600}[rng.Intn(3)],
 				idleDur: []time.Duration{time.Millisecond, 3 * time.Millisecond, 300 * time.Millisecond}[rng.Intn(3)],
-				holdMax: []int{0, 300, 1500}[rng.Intn(3)], doPct: []int{0, 30, 60}[rng.Intn(3)]}
+				holdMax: []int{0, 300, 1500}[rng.Intn(3)], doPct: []int{0, 30, 60}[rng.Intn(3)],
+				closeDur: []int{0, 300, 900}[rng.Intn(3)], janitor: []int{0, 3, 8}[rng.Intn(3)], stage: rng.Intn(2) == 0}
+			if cfg.workers <= maxc {
+				cfg.workers = maxc + 1 + rng.Intn(2)
+			}
 			if wait == 1 {
 				cfg.wait = []time.Duration{400 * time.Microsecond, 2 * time.Millisecond, 25 * time.Millisecond}[rng.Intn(3)]
 			}
